@@ -423,8 +423,10 @@ Lemma parse_opt_value_K idn attached a has_eq st :
                 match snd x with
                 | PREqualsNotProvided i => i = a_id a /\ a_req_eq a = true /\ has_eq = false
                                            /\ exists r, a_num a = Some r /\ vmin r <> 0
-                | PRUnneeded _ _ => False
-                | _ => True end) react_err_at
+                | PROpt _ => mt_pending (mt (fst x)) <> None
+                | PRAttachedNotConsumed => attached <> None /\ has_eq = false
+                | PRValuesDone => True
+                | _ => False end) react_err_at
       (parse_opt_value c idn attached a has_eq st).
 Proof.
   intros Hin Hocc HVa HK. unfold parse_opt_value.
@@ -432,7 +434,8 @@ Proof.
   - destruct (a_num a) as [r|] eqn:En; cbn [expect rbind]; [|exact I].
     destruct (vmin r =? 0) eqn:Emin.
     + eapply okE_bind; [apply (react_K (Some idn) SCmdLine a [] None st Hin Hocc (Forall_nil _) HK)|].
-      intros x [HKx _]. cbn. split; [exact HKx|]. destruct (is_some attached); exact I.
+      intros x [HKx _]. cbn. split; [exact HKx|]. destruct attached; cbn; [|exact I].
+      split; [discriminate|]. apply andb_prop in Ereq. destruct Ereq as [_ E2]. destruct has_eq; [discriminate E2|reflexivity].
     + cbn. split; [exact HK|]. apply andb_prop in Ereq. destruct Ereq as [E1 E2].
       split; [reflexivity|]. split; [exact E1|]. split; [destruct has_eq; [discriminate|reflexivity]|].
       exists r. split; [reflexivity|]. apply N.eqb_neq. exact Emin.
@@ -442,7 +445,7 @@ Proof.
       intros x [HKx _]. cbn. split; [exact HKx|exact I].
     + eapply okE_bind; [apply resolve_pending_K; exact HK|]. intros st1 [HK1 Hp1].
       rewrite (pending_values_push_new _ _ _ _ _ Hp1). cbn [expect rbind]. cbn.
-      split; [|exact I]. destruct HK1 as [_ He1]. split; autorewrite with ps; [|exact He1].
+      split; [|autorewrite with ps; discriminate]. destruct HK1 as [_ He1]. split; autorewrite with ps; [|exact He1].
       intros p Hp. autorewrite with ps in Hp. inversion Hp; subst p. cbn.
       split; [exists a; split; [apply W3; exact Hin|split; assumption]|constructor].
 Qed.
@@ -477,20 +480,23 @@ Proof.
       split; [exact Hin|]. right. split; [exact Ei|]. split; [exact Hin|]. split; [exact Ep|]. right. exact Eal.
 Qed.
 
-Definition flag_post (tok : bytes) (x : ps * presult * bool) : Prop :=
+Definition flag_post (tok : bytes) (st0 : ps) (x : ps * presult * bool) : Prop :=
   let '(st1, pr, _) := x in
   K st1 /\ match pr with
            | PREqualsNotProvided i => noeq_cause tok i
            | PRUnneeded _ i => unneeded_cause tok i
+           | PROpt _ => mt_pending (mt st1) <> None
+           | PRMaybeHyphen | PRNoArg => mt st1 = mt st0
+           | PRAttachedNotConsumed => False
            | _ => True end.
 
 Lemma parse_long_arg_K tok f ok v pst pc vaf st :
   In tok T -> to_long tok = Some (f, ok, v) -> K st ->
-  okE (flag_post tok) react_err_at (parse_long_arg c f ok v pst pc vaf st).
+  okE (flag_post tok st) react_err_at (parse_long_arg c f ok v pst pc vaf st).
 Proof.
   intros Htok El HK. unfold parse_long_arg.
   destruct (state_arg c pst) as [sa|e0 s0|p0] eqn:Esa; cbn [rbind]; [|exfalso; eapply state_arg_not_err, Esa|exact I].
-  destruct (match sa with Some a => a_hyphen a | None => false end); [cbn; split; [exact HK|exact I]|].
+  destruct (match sa with Some a => a_hyphen a | None => false end); [cbn; split; [exact HK|reflexivity]|].
   destruct (negb ok); [cbn; split; [exact HK|exact I]|].
   destruct (is_nil f && negb (is_some v)); [exact I|].
   match goal with |- okE _ _ (match ?fd with Some _ => _ | None => _ end) => destruct fd as [a|] eqn:Efound end.
@@ -501,15 +507,17 @@ Proof.
     + eapply okE_bind; [apply (parse_opt_value_K ILong v a (is_some v) st Hin Hocc)|]; [|exact HK|].
       { intros v0 Hv0. subst v. destruct (to_long_value_suffix _ _ _ _ El) as [n0 ->]. apply Vt_tok. exact Htok. }
       intros [st1 pr] [HK1 Hpr]. cbn in *. split; [exact HK1|].
-      destruct pr; try exact I; try contradiction. destruct Hpr as [-> [H1 [H2 H3]]].
-      destruct v; [discriminate H2|]. eapply NELong; try eassumption. reflexivity.
+      destruct pr; try exact I; try contradiction; try exact Hpr.
+      * destruct Hpr as [H1 H2]. destruct v; [discriminate H2|contradiction].
+      * destruct Hpr as [-> [H1 [H2 H3]]].
+        destruct v; [discriminate H2|]. eapply NELong; try eassumption. reflexivity.
     + destruct v as [rest|].
       * cbn. split; [exact HK|]. exists a, f, ok, rest. repeat split; assumption.
       * eapply okE_bind; [apply (react_K (Some ILong) SCmdLine a [] None st Hin Hocc (Forall_nil _) HK)|].
         intros [st1 pr] [HK1 [_ Hpr]]. cbn in *. subst pr. split; [exact HK1|exact I].
   - destruct (possible_long_flag_subcommand c f); [cbn; split; [exact HK|exact I]|].
     destruct (match get_pos c pc with Some a => a_hyphen a && negb (a_last a) | None => false end);
-      cbn; (split; [exact HK|exact I]).
+      cbn; (split; [exact HK|first [reflexivity|exact I]]).
 Qed.
 
 (** ** the short cluster *)
@@ -521,10 +529,19 @@ Proof.
   rewrite skipn_add. eexists; reflexivity.
 Qed.
 
+Definition sl_post (tok : bytes) (st : ps) (r : bytes) (ret : presult) (x : ps * presult * bool) : Prop :=
+  let '(st1, pr, _) := x in
+  K st1 /\ match pr with
+           | PREqualsNotProvided i => noeq_cause tok i
+           | PROpt _ => mt_pending (mt st1) <> None
+           | PRNoArg => ret = PRNoArg /\ r = [] /\ st1 = st
+           | PRUnneeded _ _ | PRMaybeHyphen | PRAttachedNotConsumed => False
+           | _ => True end.
+
 Lemma short_loop_K tok r0 : In tok T -> to_short tok = Some r0 ->
   forall fuel r ret vaf st, (exists n, r = skipn n r0) -> K st ->
-  match ret with PREqualsNotProvided _ | PRUnneeded _ _ => False | _ => True end ->
-  okE (flag_post tok) react_err_at (short_loop c fuel r ret vaf st).
+  (ret = PRNoArg \/ ret = PRValuesDone) ->
+  okE (sl_post tok st r ret) react_err_at (short_loop c fuel r ret vaf st).
 Proof.
   intros Htok Es.
   assert (HVsuf : forall n, Vt (skipn n r0)).
@@ -542,48 +559,267 @@ Proof.
       destruct (negb (a_takes_value a)).
       * eapply okE_bind; [apply (react_K (Some IShort) SCmdLine a [] None st Hin Hocc (Forall_nil _) HK)|].
         intros [st1 pr] [HK1 [_ Hpr]]. cbn in Hpr, HK1. subst pr. cbn [fst snd].
-        apply IH; [exact Hr'|exact HK1|exact I].
+        eapply okE_weaken; [apply (IH r' PRValuesDone true st1 Hr' HK1); right; reflexivity| |auto].
+        intros [[st2 pr2] v2] [HK2 H2]. split; [exact HK2|].
+        destruct pr2; try exact H2; try exact I. destruct H2 as [H2 _]. discriminate H2.
       * set (val := match r' with [] => None | _ => Some r' end).
         destruct (match val with Some (61 :: v) => (Some v, true) | _ => (val, false) end) as [val' has_eq] eqn:Ev.
         assert (Hval : (forall v, val' = Some v -> Vt v)
-                       /\ (has_eq = false -> match r' with 61 :: _ => False | _ => True end)).
+                       /\ (has_eq = false -> match r' with 61 :: _ => False | _ => True end)
+                       /\ (val' <> None -> r' <> [])).
         { rewrite strip_eq_spec in Ev. subst val. destruct Hr' as [n' Hr'].
-          destruct r' as [|b0 t0]; [injection Ev as E1 E2; split; [intros v Hv; rewrite <- E1 in Hv; discriminate|intros _; exact I]|].
+          destruct r' as [|b0 t0].
+          { injection Ev as E1 E2. split; [intros v Hv; rewrite <- E1 in Hv; discriminate|].
+            split; [intros _; exact I|intros Hn; rewrite <- E1 in Hn; contradiction]. }
           destruct (b0 =? 61) eqn:Eb; injection Ev as E1 E2.
-          - split; [|intros; congruence]. intros v Hv. rewrite <- E1 in Hv. injection Hv as <-.
+          - split; [|split; [intros; congruence|intros _; discriminate]]. intros v Hv. rewrite <- E1 in Hv. injection Hv as <-.
             pose proof (HVsuf (n' + 1)%nat) as HH. rewrite <- skipn_add, <- Hr' in HH. exact HH.
-          - split.
+          - split; [|split; [|intros _; discriminate]].
             + intros v Hv. rewrite <- E1 in Hv. injection Hv as <-. rewrite Hr'. apply HVsuf.
             + intros _. destruct b0 as [|pb]; [exact I|]. apply N.eqb_neq in Eb.
               do 7 (try (destruct pb as [pb|pb|]; try exact I)). congruence. }
-        destruct Hval as [HVval Hnoeq].
+        destruct Hval as [HVval [Hnoeq Hne]].
         eapply okE_bind; [apply (parse_opt_value_K IShort val' a has_eq st Hin Hocc HVval HK)|].
         intros [st1 pr] [HK1 Hpr]. cbn [fst snd] in *.
-        destruct pr; try contradiction; try (cbn; split; [exact HK1|exact I]).
-        -- apply IH; [exact Hr'|exact HK1|exact Hret].
+        destruct pr; try contradiction.
+        -- cbn. split; [exact HK1|exact Hpr].
+        -- cbn. split; [exact HK1|exact I].
+        -- destruct Hpr as [Hatt _].
+           eapply okE_weaken; [apply (IH r' ret true st1 Hr' HK1 Hret)| |auto].
+           intros [[st2 pr2] v2] [HK2 H2]. split; [exact HK2|].
+           destruct pr2; try exact H2; try exact I. destruct H2 as [_ [H2 _]]. exfalso. apply (Hne Hatt H2).
         -- cbn. split; [exact HK1|]. destruct Hpr as [-> [H1 [H2 H3]]].
            subst r. eapply NEShort; try eassumption; [apply Hnoeq; exact H2|reflexivity].
     + destruct (find_short_subcmd c ch).
       * eapply okE_bind; [apply resolve_pending_K; exact HK|]. intros st1 [HK1 _]. cbn. split; [exact HK1|exact I].
       * cbn. split; [exact HK|exact I].
   - cbn. split; [exact HK|exact I].
-  - cbn. split; [exact HK|]. destruct ret; try exact I; contradiction.
+  - cbn. split; [exact HK|]. destruct Hret as [->| ->]; [|exact I].
+    split; [reflexivity|split; [|reflexivity]]. unfold sf_next in En. destruct r; [reflexivity|].
+    destruct (utf8_step (n :: r)) as [[? ?]|]; discriminate.
 Qed.
 
 Lemma parse_short_arg_K tok r pst pc vaf st : In tok T -> to_short tok = Some r -> K st ->
-  okE (flag_post tok) react_err_at (parse_short_arg c r pst pc vaf st).
+  okE (flag_post tok st) react_err_at (parse_short_arg c r pst pc vaf st).
 Proof.
   intros Htok Es HK. unfold parse_short_arg.
   destruct (state_arg c pst) as [sa|e0 s0|p0] eqn:Esa; cbn [rbind]; [|exfalso; eapply state_arg_not_err, Esa|exact I].
   destruct (match sa with Some a => a_hyphen a || (a_negnum a && sf_is_negative_number r) | None => false end);
-    [cbn; split; [exact HK|exact I]|].
+    [cbn; split; [exact HK|reflexivity]|].
   destruct (match get_pos c pc with Some a => a_negnum a | None => false end && sf_is_negative_number r);
-    [cbn; split; [exact HK|exact I]|].
+    [cbn; split; [exact HK|reflexivity]|].
   destruct (match get_pos c pc with Some a => a_hyphen a && negb (a_last a) | None => false end
             && sf_any_unknown c (S (length r)) r);
-    [cbn; split; [exact HK|exact I]|].
+    [cbn; split; [exact HK|reflexivity]|].
   destruct (sf_advance_by _ r) as [r1|] eqn:Ea; cbn [expect rbind]; [|exact I].
-  apply (short_loop_K tok r Htok Es); [eapply sf_advance_by_skipn; exact Ea|exact HK|exact I].
+  eapply okE_weaken; [apply (short_loop_K tok r Htok Es (S (length r1)) r1 PRNoArg vaf (st <| fs_skip := 0 |>));
+                      [eapply sf_advance_by_skipn; exact Ea|exact HK|left; reflexivity]| |auto].
+  intros [[st1 pr] v] [HK1 H1]. split; [exact HK1|].
+  destruct pr; try exact H1; try exact I; try contradiction.
+  destruct H1 as [_ [_ ->]]. reflexivity.
+Qed.
+
+
+(** ** the token loop of one level *)
+Inductive loop_cause (e : error) : Prop :=
+| LCReact : react_err_at e -> loop_cause e
+| LCUnknown tok : In tok T -> unknown_cause c tok e -> loop_cause e
+| LCNoEq tok i : In tok T -> noeq_cause tok i -> e = mkerr c ENoEquals i -> loop_cause e
+| LCUnneeded tok i : In tok T -> unneeded_cause tok i -> e = mkerr c ETooManyValues i -> loop_cause e
+| LCExtUtf8 tok : In tok T -> utf8_valid tok = false -> is_set s_allow_external c = true ->
+    e = mkerr c EInvalidUtf8 [] -> loop_cause e.
+
+Definition lr_post (lr : loop_res) : Prop :=
+  match lr with
+  | LDone st => K st
+  | LSub n keep vaf st rest => K st /\ suffix_of rest T
+  | LExternal n vals st => K st /\ suffix_of (n :: vals) T /\ is_set s_allow_external c = true
+  | LHelpSub names st => K st /\ suffix_of names T
+  end.
+
+(** while an option collects values its pending occurrence exists *)
+Definition LI' (pst : pstate_t) (st : ps) : Prop :=
+  match pst with PSOpt _ => mt_pending (mt st) <> None | _ => True end.
+
+Lemma LI'_mt pst st st' : mt st' = mt st -> LI' pst st -> LI' pst st'.
+Proof. intros H. unfold LI'. rewrite H. auto. Qed.
+
+Lemma resolve_pending_L st : K st ->
+  okE (fun s => K s /\ mt_pending (mt s) = None) loop_cause (resolve_pending c st).
+Proof. intros HK. eapply okE_weaken; [apply resolve_pending_K; exact HK|auto|intros e He; apply LCReact; exact He]. Qed.
+
+Lemma resolve_pending_ignore_L Qe st : okE (fun _ : ps => True) Qe (resolve_pending_ignore c st).
+Proof. unfold resolve_pending_ignore. destruct (resolve_pending c st); exact I. Qed.
+
+Lemma pending_values_push_KM m i idn tr v m1 : KM m -> Vt v ->
+  (mt_pending m = None -> exists a, find_arg c i = Some a /\ Sel a) ->
+  pending_values_push m i idn tr (Some v) = Some m1 -> KM m1 /\ mt_pending m1 <> None.
+Proof.
+  intros [Hp He] Hv Hnew. unfold pending_values_push.
+  set (p := match mt_pending m with Some p => p | None => mkPending i idn [] None end).
+  destruct (negb (beq (p_id p) i)); [discriminate|].
+  destruct (is_some idn && negb (ident_eqb (p_ident p) idn)); [discriminate|].
+  intros H; inversion H; subst m1; clear H. split; [|autorewrite with ps; discriminate].
+  split; autorewrite with ps; [|exact He].
+  intros p' Hp'. autorewrite with ps in Hp'. inversion Hp'; subst p'; clear Hp'. cbn [p_id p_raw].
+  subst p. destruct (mt_pending m) as [p0|] eqn:Ep.
+  - destruct (Hp p0 Ep) as [Ha HV]. split; [exact Ha|]. apply Forall_app. split; [exact HV|repeat constructor; exact Hv].
+  - cbn. split; [apply Hnew; reflexivity|repeat constructor; exact Hv].
+Qed.
+
+Lemma K_start_trailing st : K st -> K (st <| mt := start_trailing (mt st) |>).
+Proof.
+  intros [Hp He]. unfold K, start_trailing. autorewrite with ps.
+  destruct (mt_pending (mt st)) as [p|] eqn:Ep; [|split; assumption].
+  split; autorewrite with ps; [|exact He].
+  intros p' Hp'. autorewrite with ps in Hp'. inversion Hp'; subst p'. cbn. apply (Hp p Ep).
+Qed.
+
+Lemma parse_loop_K : forall toks ls st, suffix_of toks T -> K st -> LI' (l_pst ls) st ->
+  okE lr_post loop_cause (parse_loop c toks ls st).
+Proof.
+  induction toks as [|tok rest IH0]; intros ls st Hsuf HK HL; [cbn; exact HK|].
+  pose proof (suffix_in _ _ _ Hsuf) as Htok. pose proof (suffix_tail _ _ _ Hsuf) as Hrest.
+  assert (IH : forall ls st, K st -> LI' (l_pst ls) st -> okE lr_post loop_cause (parse_loop c rest ls st))
+    by (intros; apply IH0; assumption).
+  clear IH0.
+  assert (HVt0 : Vt tok) by (apply (Vt_tok tok 0 Htok)).
+  cbn [parse_loop].
+  match goal with |- okE _ _ (rbind ?ph _) => set (phase1 := ph) end.
+  set (PH := fun x : option (res loop_res) * lstate * ps =>
+               let '(early, ls1, st1) := x in
+               match early with
+               | Some r => okE lr_post loop_cause r
+               | None => K st1 /\ LI' (l_pst ls1) st1 end).
+  assert (Hph : okE PH loop_cause phase1).
+  { subst phase1 PH. destruct (l_trailing ls); [cbn; split; [exact HK|exact HL]|].
+    destruct (if is_set s_sub_precedence c || match l_pst ls with PSValuesDone => true | _ => false end
+              then possible_subcommand c tok (l_vaf ls) else None) as [sc|] eqn:Esub.
+    { destruct (beq sc s_help && negb (is_set s_disable_help_sub c)); cbn; (split; [exact HK|exact Hrest]). }
+    assert (After : forall x, flag_post tok st x ->
+       match snd (fst x) with PRNoMatchingArg a => unknown_cause c tok (mkerr c EUnknownArgument a) | _ => True end ->
+       okE (fun y : option (res loop_res) * lstate * ps =>
+               let '(early, ls1, st1) := y in
+               match early with
+               | Some r => okE lr_post loop_cause r
+               | None => K st1 /\ LI' (l_pst ls1) st1 end) loop_cause
+         (let '(st1, pr, vaf1) := x in
+          let ls1 := mkL (l_pst ls) (l_pos ls) vaf1 false in
+          match pr with
+          | PRValuesDone => ROk (Some (parse_loop c rest (mkL PSValuesDone (l_pos ls) vaf1 false) st1), ls1, st1)
+          | PROpt i => ROk (Some (parse_loop c rest (mkL (PSOpt i) (l_pos ls) vaf1 false) st1), ls1, st1)
+          | PRFlagSub n => ROk (Some (ROk (LSub n false vaf1 st1 rest)), ls1, st1)
+          | PREqualsNotProvided a =>
+              do st2 <- resolve_pending_ignore c st1; ROk (Some (RErr (mkerr c ENoEquals a) st2), ls1, st2)
+          | PRNoMatchingArg a =>
+              do st2 <- resolve_pending_ignore c st1; ROk (Some (RErr (mkerr c EUnknownArgument a) st2), ls1, st2)
+          | PRUnneeded r a =>
+              do st2 <- resolve_pending_ignore c st1; ROk (Some (RErr (mkerr c ETooManyValues a) st2), ls1, st2)
+          | PRMaybeHyphen => ROk (None, ls1, st1)
+          | PRNoArg => ROk (None, ls1, st1)
+          | PRAttachedNotConsumed => RPanic 203
+          end)).
+    { intros [[st1 pr] vaf1] [HK1 Hpr] Hnm. cbn zeta. cbn [fst snd] in Hnm.
+      destruct pr; cbn [okE].
+      - split; [exact HK1|exact Hrest].
+      - apply IH; [exact HK1|exact Hpr].
+      - apply IH; [exact HK1|exact I].
+      - exact I.
+      - eapply okE_bind; [apply resolve_pending_ignore_L|]. intros st2 _. cbn. eapply LCUnneeded; [exact Htok|exact Hpr|reflexivity].
+      - cbn. split; [exact HK1|]. eapply LI'_mt; [exact Hpr|exact HL].
+      - eapply okE_bind; [apply resolve_pending_ignore_L|]. intros st2 _. cbn. eapply LCNoEq; [exact Htok|exact Hpr|reflexivity].
+      - eapply okE_bind; [apply resolve_pending_ignore_L|]. intros st2 _. cbn. eapply LCUnknown; [exact Htok|exact Hnm].
+      - cbn. split; [exact HK1|]. eapply LI'_mt; [exact Hpr|exact HL]. }
+    destruct (is_escape tok).
+    { destruct (state_arg c (l_pst ls)) as [sa|e0 s0|p0] eqn:Esa; cbn [rbind]; [|exfalso; eapply state_arg_not_err, Esa|exact I].
+      destruct (match sa with Some a => a_hyphen a | None => false end); cbn; [split; [exact HK|exact HL]|].
+      apply IH; [apply K_start_trailing; exact HK|].
+      cbn [l_pst]. unfold LI' in *. destruct (l_pst ls); try exact I. autorewrite with ps. unfold start_trailing.
+      destruct (mt_pending (mt st)); [autorewrite with ps; discriminate|contradiction]. }
+    destruct (to_long tok) as [[[f ok] v]|] eqn:El.
+    { pose proof (parse_long_arg_K tok f ok v (l_pst ls) (l_pos ls) (l_vaf ls) st Htok El HK) as HP.
+      destruct (parse_long_arg c f ok v (l_pst ls) (l_pos ls) (l_vaf ls) st) as [[[st1 pr] vaf1]|e1 s1|p1] eqn:E;
+        cbn [rbind okE] in HP |- *; [|apply LCReact; exact HP|exact I].
+      cbn [fst snd].
+      assert (Hnm : match pr with PRNoMatchingArg a => unknown_cause c tok (mkerr c EUnknownArgument a) | _ => True end).
+      { destruct pr; try exact I. apply parse_long_no_match_sound in E. destruct E as [-> [_ Hc]].
+        eapply UCLong; [exact El|reflexivity|exact Hc]. }
+      destruct pr; try exact I;
+        (let HA := fresh "HA" in pose proof (After (st1, _, vaf1) HP Hnm) as HA; cbn in HA |- *; exact HA). }
+    destruct (to_short tok) as [r|] eqn:Es; [|cbn; split; [exact HK|exact HL]].
+    pose proof (parse_short_arg_K tok r (l_pst ls) (l_pos ls) (l_vaf ls) st Htok Es HK) as HP.
+    destruct (parse_short_arg c r (l_pst ls) (l_pos ls) (l_vaf ls) st) as [[[st1 pr] vaf1]|e1 s1|p1] eqn:E;
+      cbn [rbind okE] in HP |- *; [|apply LCReact; exact HP|exact I].
+    assert (Hnm : match pr with PRNoMatchingArg a => unknown_cause c tok (mkerr c EUnknownArgument a) | _ => True end).
+    { destruct pr; try exact I. apply parse_short_no_match_sound in E.
+      eapply UCShort; [exact Es|]. cbn [e_arg mkerr]. exact E. }
+    pose proof (After (st1, pr, vaf1) HP Hnm) as HA.
+    destruct pr; try exact I; try (cbn in HA |- *; exact HA).
+    destruct HP as [HK1 _].
+    destruct (fs_at st1) as [a|]; [|cbn; split; [exact HK1|exact Hrest]].
+    destruct (checked_sub (cur_idx st1) a); cbn [expect rbind]; [|exact I].
+    cbn. split; [exact HK1|exact Hsuf]. }
+  eapply okE_bind; [exact Hph|]. clear Hph phase1. subst PH.
+  intros [[early ls1] st1] H1.
+  destruct early as [r|]; [exact H1|].
+  destruct H1 as [HK1 HL1].
+  match goal with
+  | |- okE _ _ (match _ with PSValuesDone => ?t | PSOpt _ => _ | PSPos _ => _ end) =>
+      assert (Hpos : okE lr_post loop_cause t)
+  end.
+  { cbn zeta.
+    match goal with |- okE _ _ (rbind ?e _) => set (pce := e) end.
+    assert (Hpc : forall e0 s0, pce <> RErr e0 s0).
+    { subst pce. intros e0 s0.
+      repeat match goal with
+             | |- (if ?b then _ else _) <> _ => destruct b
+             | |- match ?x with _ => _ end <> _ => destruct x eqn:?
+             end; try discriminate.
+      match goal with |- rbind (is_new_arg c ?n ?a) _ <> _ => destruct (is_new_arg c n a) eqn:En end;
+        cbn [rbind]; [discriminate|exfalso; eapply is_new_arg_not_err, En|discriminate]. }
+    destruct pce as [pcv|e0 s0|p0]; cbn [rbind]; [|exfalso; eapply Hpc; reflexivity|exact I]. clear Hpc.
+    destruct (get_pos c pcv) as [a|] eqn:Eg.
+    - destruct (get_pos_in _ _ _ Eg) as [Hin Hidx].
+      assert (Hsel : Sel a).
+      { split; [exact Hin|]. exists tok. split; [exact Htok|]. right; right. exact Hidx. }
+      destruct (a_last a && negb (l_trailing ls1)) eqn:Elast.
+      + eapply okE_bind; [apply resolve_pending_ignore_L|]. intros s2 _. cbn.
+        apply andb_prop in Elast. destruct Elast as [Elast _].
+        eapply LCUnknown; [exact Htok|]. eapply UCLast; [exact Eg|exact Elast|reflexivity].
+      + assert (Push : forall s2, K s2 ->
+                  okE lr_post loop_cause
+                    (if check_terminator a tok
+                     then parse_loop c rest (mkL PSValuesDone (pcv + 1) true (l_trailing ls1 || a_tva a)) s2
+                     else do m1 <- expect 415 (pending_values_push (mt s2) (a_id a) (Some IIndex) (l_trailing ls1 || a_tva a) (Some tok));
+                          if negb (a_is_multiple a)
+                          then parse_loop c rest (mkL PSValuesDone (pcv + 1) true (l_trailing ls1 || a_tva a)) (s2 <| mt := m1 |>)
+                          else parse_loop c rest (mkL (PSPos (a_id a)) pcv true (l_trailing ls1 || a_tva a)) (s2 <| mt := m1 |>))).
+        { intros s2 HK2. destruct (check_terminator a tok); [apply IH; [exact HK2|exact I]|].
+          destruct (pending_values_push (mt s2) (a_id a) (Some IIndex) (l_trailing ls1 || a_tva a) (Some tok)) as [m1|] eqn:Epush;
+            cbn [expect rbind]; [|exact I].
+          destruct (pending_values_push_KM _ _ _ _ _ _ HK2 HVt0 (fun _ => ex_intro _ a (conj (W3 a Hin) Hsel)) Epush) as [HKm _].
+          destruct (negb (a_is_multiple a)); apply IH; try (apply K_set_mt; exact HKm); exact I. }
+        match goal with |- okE _ _ (rbind (if ?b then _ else _) _) => destruct b end.
+        * eapply okE_bind; [apply resolve_pending_L; exact HK1|]. intros s2 [HK2 _]. apply Push. exact HK2.
+        * cbn [rbind]. apply Push. exact HK1.
+    - destruct (is_set s_allow_external c) eqn:Eext.
+      + destruct (utf8_valid tok) eqn:Eu; [cbn; split; [exact HK1|split; [exact Hsuf|exact Eext]]|].
+        eapply okE_bind; [apply resolve_pending_ignore_L|]. intros s2 _. cbn.
+        eapply LCExtUtf8; [exact Htok|exact Eu|exact Eext|reflexivity].
+      + eapply okE_bind; [apply resolve_pending_ignore_L|]. intros s2 _. cbn.
+        eapply LCUnknown; [exact Htok|]. eapply UCNoPos; [exact Eg|exact Eext|reflexivity]. }
+  destruct (if l_trailing ls1 then PSValuesDone else l_pst ls1) eqn:Est.
+  - exact Hpos.
+  - assert (Hi : l_pst ls1 = PSOpt i) by (destruct (l_trailing ls1); [discriminate|exact Est]).
+    rewrite Hi in HL1. cbn in HL1.
+    destruct (find_arg c i) as [a|] eqn:Hf; cbn [expect rbind]; [|exact I].
+    destruct (check_terminator a tok); [apply IH; [exact HK1|exact I]|].
+    destruct (pending_values_push (mt st1) i None false (Some tok)) as [m1|] eqn:Epush; cbn [expect rbind]; [|exact I].
+    destruct (pending_values_push_KM _ _ _ _ _ _ HK1 HVt0 (fun Hn => False_ind _ (HL1 Hn)) Epush) as [HKm Hpm].
+    destruct (needs_more_vals m1 a) as [more|]; cbn [expect rbind]; [|exact I].
+    apply IH; [apply K_set_mt; exact HKm|].
+    cbn [l_pst]. destruct more; [cbn; autorewrite with ps; exact Hpm|exact I].
+  - exact Hpos.
 Qed.
 
 End Level.
